@@ -2,10 +2,15 @@
    Only pinned statements; proofs live in Proofs/GraphMLOk.v.  [evs] ranges over
    EVERY sequence of results quick-xml's read_event_into can produce (start /
    empty / end / text / comment / other / eof / error, attribute items ok or erroneous),
-   [parse] over every behaviour of str::parse::<f64>. *)
+   [parse] over every behaviour of str::parse::<f64>.
+   Round 2: the refinement constructor model -> spec layer (Spec/AGraph.v spec_new_from), evaluated
+   per case before (observation 8), is PROVED for every input and every name type
+   (C19_constructor_refines_spec), hence the reader as a whole is characterised against the spec
+   layer (C19_reader_refines_spec), and an Ok result satisfies the full coherence invariant
+   (C19_ok_valid); observation 8 is kept as a tie between model and code. *)
 From Coq Require Import List NArith ZArith Bool.
 From GV Require Import Base.Outcome Base.AMap Model.GState Model.Creation Model.XmlEscape Model.GraphML.
-From GV Require Import Spec.GraphMLDef Proofs.EscapeOk Proofs.GraphMLOk Proofs.CreationNoPanic Proofs.ReaderTotal.
+From GV Require Import Spec.AGraph Spec.History Spec.GraphMLDef Proofs.WFDefs Proofs.Refine Proofs.EscapeOk Proofs.GraphMLOk Proofs.CreationNoPanic Proofs.ReaderTotal Proofs.GraphMLStateOk.
 Import ListNotations.
 
 (* the event loop (everything read_graphml_string does before calling the
@@ -71,3 +76,51 @@ Proof. exact (@new_from_no_panic). Qed.
 Theorem C19_ok_indexes : forall (parse : bytes -> option weight) (evs : list event) (s : specs) (g : ggraph),
   read_events parse evs s = Ok g -> NP bytes_eqb g.
 Proof. exact read_events_ok_indexes. Qed.
+
+(* ---------------------------------------------------------------------------------------------
+   Round 2: the constructor against the spec layer.  [Rep g a]: g satisfies the coherence invariant
+   WF, has a's specs, a's node list, and stores a permutation of a's edge list.
+   --------------------------------------------------------------------------------------------- *)
+
+(* the policy ladder of the spec layer does not depend on the order of the abstract edge list *)
+Theorem C19_spec_add_edge_permutation_invariant :
+  forall (T A : Type) (teqb tltb : T -> T -> bool) (a b : agraph T A) (e : edge T A),
+  aequiv a b ->
+  snd (spec_add_edge teqb tltb a e) = snd (spec_add_edge teqb tltb b e) /\
+  aequiv (fst (spec_add_edge teqb tltb a e)) (fst (spec_add_edge teqb tltb b e)).
+Proof. exact (@spec_add_edge_equiv). Qed.
+
+(* Graph::new_from_nodes_and_edges refines spec_new_from, on EVERY input, for any name type: the
+   same error, or a valid state representing the abstract result; never a panic *)
+Theorem C19_constructor_refines_spec :
+  forall (T A : Type) (teqb tltb : T -> T -> bool),
+  (forall x y, teqb x y = true <-> x = y) ->
+  (forall x y, tltb x y = true -> tltb y x = false) ->
+  (forall x y, tltb x y = false -> tltb y x = false -> x = y) ->
+  forall (ns : list (node T A)) (es : list (edge T A)) (s : specs),
+  match spec_new_from teqb tltb ns es s, new_from_nodes_and_edges teqb tltb ns es s with
+  | Ok a, Ok g => Rep teqb tltb g a
+  | Err k, Err k' => k = k'
+  | _, _ => False
+  end.
+Proof. exact (@new_from_refines). Qed.
+
+(* the reader as a whole against the spec layer *)
+Theorem C19_reader_refines_spec : forall (parse : bytes -> option weight) (evs : list event) (s : specs),
+  match doc_content parse evs with
+  | Some (d, ns, es) =>
+    match spec_new_from bytes_eqb bytes_ltb ns es (with_directed d s), read_events parse evs s with
+    | Ok a, Ok g => Rep bytes_eqb bytes_ltb g a
+    | Err k, Err k' => k = k'
+    | _, _ => False
+    end
+  | None => read_events parse evs s = Err ReadError
+  end.
+Proof. exact read_events_refines_spec. Qed.
+
+(* Ok g: g is a valid graph — a state reachable through the public mutation API, satisfying the full
+   coherence invariant of all twelve fields (C01-C03), not only the index part NP of C19_ok_indexes *)
+Theorem C19_ok_valid : forall (parse : bytes -> option weight) (evs : list event) (s : specs) (g : ggraph),
+  read_events parse evs s = Ok g ->
+  reachable bytes_eqb bytes_ltb (sp g) g /\ WF bytes_eqb bytes_ltb g.
+Proof. exact read_events_ok_valid. Qed.
